@@ -34,6 +34,9 @@ func c19GenFile(r *Rng, idx int) c19File {
 	n := 0
 	nm := func(base string) string { n++; return fmt.Sprintf("%s%s%d", pre, base, n) }
 	nStat := r.Range(6, 16)
+	if r.Chance(1, 4) {
+		nStat = r.Range(30, 90) // a long file: declarations far down (line numbers beyond typical column numbers)
+	}
 	var tables []string // global tables that can get members
 	var ltables []string
 	for i := 0; i < nStat; i++ {
